@@ -123,7 +123,7 @@ def esWrites (cfg : Cfg) (st : Study) (id : Nat) (es : EsOutcome) : List Write :
         let o : EsOp := { trialId := id, active := true, shouldStop := false }
         .putEsOp o :: esComputeWrites cfg (st.putEsOp o) id es
       | some o =>
-        if o.active || !cfg.esRecycle then []
+        if esReturnsStored cfg o then []
         else
           let o' : EsOp := { o with active := true, shouldStop := false }
           .putEsOp o' :: esComputeWrites cfg (st.putEsOp o') id es
